@@ -115,7 +115,8 @@ def run(ctx):
                         gsb = [success_edges(fn, h) for h in hdrs]
                         if all(g_ and b not in cfg.reachable(fn, [t_ for (_, t_) in bad_ if fn.term(t_)["k"] != "unreachable"]) for (g_, bad_) in gsb):
                             continue
-                fs = [x for x in walk(alt) if x.kind == "call" and x.d["term"].get("name") == "from_str" and (x.d["term"].get("self_ty") or "") == "jsonwebtoken::Algorithm"]
+                fs = [x for x in walk(alt) if x.kind == "call" and ((x.d["term"].get("name") == "from_str" and (x.d["term"].get("self_ty") or "") == "jsonwebtoken::Algorithm")
+                                                                   or (x.d["term"].get("name") == "parse" and (x.d["term"].get("self_ty") or "") == "str" and "jsonwebtoken::Algorithm" in (x.d["term"].get("gargs") or [])))]
                 if not fs or not must(alt, lambda x: x in fs):
                     allok = False
                     why.append("algorithm does not come from Algorithm::from_str: %s" % vstr(alt, 4))
